@@ -1,5 +1,5 @@
 (* C18 - debug and quiet options change what is printed, never what is simulated. *)
-From HclV Require Import Base Expr Machine MachineSpec MachineProofs.
+From HclV Require Import Base Expr Disasm DisasmProofs Machine MachineSpec MachineProofs DumpSpec DumpProofs.
 Open Scope string_scope.
 Open Scope N_scope.
 
@@ -40,3 +40,12 @@ Theorem C18_test_mode_omits_banks_only :
       (o_show_banks o = false -> banks = "").
 Proof. exact dump_report_ok. Qed.
 Print Assumptions C18_test_mode_omits_banks_only.
+
+(* the value field of a debug-table row is "0x" + the wire's value in hexadecimal, zero-padded to
+   the number of digits its width needs: reading it back gives the value *)
+Theorem C18_table_value_field :
+  forall v w, wd v = Bits w -> bits v < 2 ^ w ->
+    let field := pad_left "0"%char ((w + 3) / 4) (hex (bits v)) in
+    (0 < w -> slen field = (w + 3) / 4) /\ unhex field = Some (bits v) \/ w = 0.
+Proof. exact table_value_field_ok. Qed.
+Print Assumptions C18_table_value_field.
